@@ -21,6 +21,19 @@ def R(mod, name, cfg="rc"):
 
 
 PROPS = {
+    "C12": dict(
+        rules=[R("compiler", "rule_span")],
+        clause="The compiler's span stack is balanced on every non-error path of every Compiler method, so no construct "
+               "can shift the source positions of everything compiled after it (R-SPAN). Not decided: which line a fault "
+               "maps to, trace order, excerpt rendering.",
+        technique="path-sensitive typestate (counter) over MIR with discriminant correlation",
+    ),
+    "C05": dict(
+        rules=[R("compiler", "rule_jump_checked"), R("compiler", "rule_det")],
+        clause="Jump distances are range-checked, never truncated (R-JUMP-CHECKED); no hash-iteration order reaches the "
+               "AST/bytecode (R-DET).",
+        technique="MIR def-use origin analysis and iterator taint over a rustc_private fact dump",
+    ),
     "C07": dict(
         rules=[R("vm", "rule_regs"), R("vm", "rule_frames"), R("vm", "rule_catch_restore"), R("vm", "rule_import"),
                R("vm", "rule_exec_state")],
